@@ -9,6 +9,7 @@ from fractions import Fraction as Fr
 from core import *
 
 NEEDS = ["Heap", "Values", "ValuesProofs", "Corr"]
+GUARD = "no_inplace_edge_template"
 
 # operator library: ONE OperatorTemplate object per name in a circuit (D26); every operator has exactly one state variable
 # and at most one input variable, and is affine in the input so that edge sums can be read off dy exactly
@@ -105,12 +106,14 @@ def observe_final(c):
         pyr.reset_pyrates()
 
 
-def observe_apply(c, nv):
-    """apply(node_values=nv) on the template object itself (this is where D17 leaked into shared templates)"""
+def observe_apply(c, nv, ev=()):
+    """apply(node_values=nv, edge_values=ev) on the template object itself (this is where D17 leaked into shared templates)"""
     import pyr
     pyr.reset_pyrates()
     try:
         kwargs = dict(float_precision="float64", node_values={k: _value(v) for k, v in nv})
+        if ev:
+            kwargs["edge_values"] = {(s, t): {"weight": float(Fr(w))} for s, t, w in ev}
         c.apply(adaptive_steps=False, verbose=False, backend="default", step_size=1e-3, vectorize=False, **kwargs)
         func, args, names, svi = c._ir.get_run_func(func_name="f", step_size=1e-3, **kwargs)
         smap = {c._ir.get_frontend_varname(v): idx for v, idx in svi.items()}
@@ -141,11 +144,25 @@ def impl(case):
                 c.update_var(edge_vars=[(h[1], h[2], {"weight": float(Fr(h[3]))})])
                 outs.append("ok")
             elif h[0] == "apply":
-                outs.append(observe_apply(c, [(f"{pat}/{op}/{var}", v) for pat, op, var, v in h[1]]))
+                outs.append(observe_apply(c, [(f"{pat}/{op}/{var}", v) for pat, op, var, v in h[1]], h[2] if len(h) > 2 else ()))
+            elif h[0] == "updtpl":
+                # update_template(nodes={name: an existing NodeTemplate object}, edges=[...]); without in_place the user's
+                # variable follows the returned template (a chain c = c.update_template(...))
+                kw = {}
+                if h[2]:
+                    kw["nodes"] = {name: c.get_node_template(path) for name, path in h[2]}
+                if h[3]:
+                    kw["edges"] = [(s, t, None, {"weight": float(Fr(w))}) for s, t, w in h[3]]
+                res = c.update_template(in_place=bool(h[1]), **kw)
+                if not h[1]:
+                    c = res
+                outs.append("ok")
             else:
                 outs.append(observe_final(c))
         except (KeyError, IndexError) as e:
             outs.append({"raised": type(e).__name__})
+        except ValueError as e:      # compile of an array-valued parameter ("Shapes of state variable ... do not match"); nodes= on a hierarchy
+            outs.append({"raised": "ValueError"})
     return outs
 
 # ---------------------------------------------------------------------------------------------- generator
@@ -162,6 +179,16 @@ def tree_nodes(case, ci, prefix=()):
             out.append((prefix + (k,), j))
         else:
             out += tree_nodes(case, j, prefix + (k,))
+    return out
+
+
+def collect(case, ci, prefix=""):
+    """collect_edges on the name tree"""
+    c = case["circs"][ci]
+    out = [[prefix + s, prefix + t, w] for s, t, w in c["edges"]]
+    if not c["leaf"]:
+        for k, j in c["children"]:
+            out += collect(case, j, prefix + k + "/")
     return out
 
 
@@ -266,9 +293,10 @@ def gen_case(rng, maxlen):
         inner(depth)
     case = dict(ops=ops, nodes=nodes, circs=circs, depth=depth, hist=[])
     root = len(circs) - 1
-    allnodes = tree_nodes(case, root)
+    import copy as _copy
+    cur = dict(case, circs=_copy.deepcopy(circs))      # structure as the history goes on (update_template adds nodes / edges)
     def rand_pattern(strict=True):
-        p, _ = rng.choice(allnodes)
+        p, _ = rng.choice(tree_nodes(cur, root))
         pat = [("all" if rng.random() < 0.4 else x) for x in p]
         if rng.random() < 0.08:
             pat[-1] = rng.choice(node_names)          # possibly absent in some branch: skipped (leaf level)
@@ -278,17 +306,20 @@ def gen_case(rng, maxlen):
     def rand_target(need_all):
         for _ in range(20):
             pat = rand_pattern()
-            res = resolve(case, pat)
+            res = resolve(cur, pat)
             oi = rng.randrange(len(ops)); lib = OPLIB[ops[oi]["name"]]
             var = rng.choice([lib["state"]] + lib["consts"]) if rng.random() < 0.8 else rng.choice(lib["consts"])
             if res is None:
                 if need_all:
                     continue
                 return pat, ops[oi]["name"], var, dy8(rng), None
-            hit = [p for p, j in res if node_has(case, j, ops[oi]["name"], var)]
+            hit = [p for p, j in res if node_has(cur, j, ops[oi]["name"], var)]
             if need_all and (len(hit) != len(res) or not res):
                 continue
             n = len(res) if need_all else len(hit)
+            if n >= 1 and rng.random() < 0.07:
+                m = rng.choice([k for k in (n - 1, n + 1, n + 2) if k >= 2])   # length differs from the number of addressed nodes
+                return pat, ops[oi]["name"], var, [dy8(rng) for _ in range(m)], n
             if n >= 1 and rng.random() < 0.4:
                 vals = [dy8(rng) for _ in range(n)]
                 if len(set(vals)) < n:
@@ -305,13 +336,13 @@ def gen_case(rng, maxlen):
                 t = rand_target(False)
                 if t:
                     keys.append(["/".join(t[0]), t[1], t[2], t[3]])
-            raising = [k for k in keys if resolve(case, k[0].split("/")) is None]
+            raising = [k for k in keys if resolve(cur, k[0].split("/")) is None]
             if raising:
                 keys = raising[:1]
             if keys:
                 hist.append(["upd", keys])
-        elif r < 0.8:
-            es = circs[root]["edges"]
+        elif r < 0.72:
+            es = cur["circs"][root]["edges"]
             if es and rng.random() < 0.9:
                 e = rng.choice(es)
                 hist.append(["edge", e[0], e[1], dy8(rng, 1, 32)])
@@ -320,13 +351,50 @@ def gen_case(rng, maxlen):
                 if sub:
                     e = rng.choice(sub)
                     hist.append(["edge", "c1/" + e[0], "c1/" + e[1], dy8(rng, 1, 32)])   # not an own edge of the root: KeyError
+        elif r < 0.84:
+            # update_template: on a flat template possibly a new node (an existing NodeTemplate object under a new name),
+            # possibly a new root edge; with or without in_place
+            ns = tree_nodes(cur, root)
+            adds, es = [], []
+            if depth == 0 and rng.random() < 0.6:
+                p, j = rng.choice(ns)
+                name = rng.choice(["E", "F"])
+                adds.append([name, "/".join(p)])
+            if rng.random() < 0.6 or not adds:
+                cand = ns + [((a[0],), dict(cur["circs"][root]["children"])[a[1]]) for a in adds]
+                srcs = ["/".join(p) + "/op/x" for p, j in cand if node_has(cur, j, "op")]
+                tgts = ["/".join(p) + "/op/u" for p, j in cand if node_has(cur, j, "op")]
+                if srcs and tgts:
+                    es.append([rng.choice(srcs), rng.choice(tgts), dy8(rng, 1, 32)])
+            if depth >= 1 and rng.random() < 0.1:
+                adds, inpl = [["E", "/".join(ns[0][0])]], False         # nodes= on a hierarchical template: ValueError
+            else:
+                inpl = rng.random() < (0.5 if not es else 0.25)
+                rootc = cur["circs"][root]
+                for name, path in adds:
+                    j = dict(tree_nodes(cur, root))[tuple(path.split("/"))]
+                    if name in dict(rootc["children"]):
+                        rootc["children"] = [[k, (j if k == name else v)] for k, v in rootc["children"]]
+                    else:
+                        rootc["children"].append([name, j])
+                rootc["edges"] = rootc["edges"] + es
+            if adds or es:
+                hist.append(["updtpl", inpl, adds, es])
         else:
             keys = []
             for _ in range(rng.randint(1, 2)):
                 t = rand_target(True)
                 if t:
                     keys.append(["/".join(t[0]), t[1], t[2], t[3]])
-            hist.append(["apply", keys])
+            ev = []
+            if rng.random() < 0.5:
+                alle = collect(cur, root)
+                if alle and rng.random() < 0.9:
+                    e = rng.choice(alle)
+                    ev.append([e[0], e[1], dy8(rng, 1, 32)])
+                else:
+                    ev.append(["A/op/x", "Z/op/u", "1"])                 # no such edge: ignored
+            hist.append(["apply", keys, ev])
     case["hist"] = hist
     return case
 
@@ -352,10 +420,10 @@ HEADER = """From Coq Require Import List String ZArith QArith Qcanon Bool.
 From PV Require Import Heap Values Corr.
 Import ListNotations.
 Definition ccase := (nat * id * heap * list string * list hop * list pyout)%type.
-Definition okI (c : ccase) := let '(d, r, h, inputs, ops, pys) := c in outs_ok inputs (snd (runI d r h ops)) pys.
+Definition okI (c : ccase) := let '(d, r, h, inputs, ops, pys) := c in outs_ok inputs (snd (runI d (init_state h r) ops)) pys.
 Definition okS (c : ccase) := let '(d, r, h, inputs, ops, pys) := c in
   match abs d h r with Some t => outs_ok inputs (snd (runS d t ops)) pys | None => false end.
-Definition guard (c : ccase) := true.
+Definition guard (c : ccase) := let '(d, r, h, inputs, ops, pys) := c in no_inplace_edge_template ops.
 Definition wf (c : ccase) := let '(d, r, h, inputs, ops, pys) := c in
   match abs d h r with Some t => true | None => false end.
 """
@@ -424,9 +492,16 @@ def coq_case(case, outs):
         elif h[0] == "edge":
             ops.append(f"UpdEdge {cstr(h[1])} {cstr(h[2])} [({cstr('weight')}, {cval(h[3])})]")
             pys.append("PDone" if r == "ok" else "PRaised")
+        elif h[0] == "updtpl":
+            adds = clist([f"({cstr(name)}, {cpath(path)})" for name, path in h[2]])
+            es = clist([f"({cstr(s)}, {cstr(t)}, [({cstr('weight')}, {cval(w)})])" for s, t, w in h[3]])
+            ops.append(f"UpdTemplate {cbool(h[1])} {adds} {es}")
+            pys.append("PDone" if r == "ok" else "PRaised")
         else:
             nv = h[1] if h[0] == "apply" else []
-            ops.append("Observe " + clist([f"({cpath(pat)}, {cstr(op)}, {cstr(var)}, {cval(v)})" for pat, op, var, v in nv]))
+            ev = h[2] if h[0] == "apply" and len(h) > 2 else []
+            ops.append("Observe " + clist([f"({cpath(pat)}, {cstr(op)}, {cstr(var)}, {cval(v)})" for pat, op, var, v in nv]) + " " +
+                       clist([f"({cstr(s)}, {cstr(t)}, [({cstr('weight')}, {cval(w)})])" for s, t, w in ev]))
             pys.append(coq_obs(r) if isinstance(r, dict) and "keys" in r else "PRaised")
     return f"({cnat(case['depth'])}, {cnat(root)}, {heap}, {clist([cstr(x) for x in INPUTS])}, {clist(ops)}, {clist(pys)})"
 
@@ -451,7 +526,7 @@ def model_outputs(ctx, case, outs, tag):
     term = coq_case(case, outs)
     body = (TAB.defs() + f"Definition c : ccase := {term}.\n"
             "Eval vm_compute in (let '(d, r, h, inputs, ops, pys) := c in match abs d h r with Some t => Some (snd (runS d t ops)) | None => None end).\n"
-            "Eval vm_compute in (let '(d, r, h, inputs, ops, pys) := c in snd (runI d r h ops)).\n")
+            "Eval vm_compute in (let '(d, r, h, inputs, ops, pys) := c in snd (runI d (init_state h r) ops)).\n")
     try:
         return coq_eval(ctx, f"c07_show_{tag}", HEADER, body)[:8000]
     except Exception as e:
@@ -495,14 +570,19 @@ def check(ctx):
     badI = [good[i] for i in badI]; badS = [good[i] for i in badS]; gfalse = [good[i] for i in gfalse]
     assert not ill, f"generator produced an ill-formed store: {ill[:5]}"
     ctx.note(f"E1: {len(cases)} histories, {sum(len(c['hist']) + 1 for c in cases)} operations; impl-vs-Impl mismatches {len(badI)}, "
-             f"impl-vs-Spec mismatches {len(badS)}, harness/worker errors {len(crashed)}; "
+             f"impl-vs-Spec mismatches {len(badS)} (of which outside the guard {GUARD}: {len([i for i in badS if i in gfalse])}), "
+             f"harness/worker errors {len(crashed)}; histories outside the guard: {len(gfalse)}; "
              f"histories with a sub-circuit object registered under two names: {sum(1 for c in cases if shared_subcircuit(c))}")
+    def witness_check(f):
+        w = json.load(open(os.path.join(VERIF, f["witness"])))
+        return fails(ctx, w, "wit")[0]
     conclude(ctx, cases=cases, impl_out=outs, bad_spec=badS, bad_impl=badI, crashed=crashed, problem=problem,
+             guard_viol={i: [GUARD] for i in gfalse}, witness_check=witness_check,
              spec_name="Values.runS (updates on the unshared tree: exactly the addressed paths change)", impl_name="Values.runI",
              shrink=lambda c: shrink(ctx, c),
              show=lambda c: (lambda r: dict(implementation_output=r, model_output=model_outputs(ctx, c, r, "show") if not isinstance(r, dict) else None))(fails(ctx, c, "show")[1]))
     nt = {canon(c) for c in cases if nontrivial(c)}
-    kinds = dict(upd=0, edge=0, apply=0, array_values=0, wildcard=0, raising=0, initial_value=0)
+    kinds = dict(upd=0, edge=0, apply=0, updtpl=0, array_values=0, edge_values=0, wildcard=0, raising=0, initial_value=0)
     for c, o in zip(cases, outs):
         for h in c["hist"]:
             kinds[h[0]] += 1
@@ -511,6 +591,7 @@ def check(ctx):
                     kinds["array_values"] += isinstance(v, list)
                     kinds["wildcard"] += "all" in pat.split("/")
                     kinds["initial_value"] += var == OPLIB[op]["state"]
+                kinds["edge_values"] += int(len(h) > 2 and bool(h[2]))
         if not isinstance(o, dict):
             kinds["raising"] += sum(1 for r in o if isinstance(r, dict) and "raised" in r)
     hist = dict(depth={d: sum(1 for c in cases if c["depth"] == d) for d in (0, 1, 2)}, operations=kinds,
@@ -518,7 +599,8 @@ def check(ctx):
                 dictform_declarations=sum(1 for c in cases if any(o.get('dictform') for o in c['ops'])))
     write_evidence(ctx, evaluations=len(cases), distinct_nontrivial=len(nt),
                    rule="random histories (update_var with scalar and per-node array values, wildcard paths, constants and initial values; "
-                        "apply(node_values); root edge-weight updates; raising calls) on circuits of hierarchy depth 0-2 built from ONE "
+                        "arrays whose length differs from the number of addressed nodes; apply(node_values, edge_values); root edge-weight updates; "
+                        "update_template chains (new nodes / edges, with and without in_place); raising calls) on circuits of hierarchy depth 0-2 built from ONE "
                         "OperatorTemplate object per name (some constants declared in explicit dict form), shared NodeTemplate objects and sub-circuit objects registered under several names (D27/D47 class); dyadic values; "
                         "a history is non-trivial when it has >= 2 operations and some template object has two owners; distinct = distinct canonical JSON",
                    samples=[dict(cases[0], hist=cases[0]["hist"][:4])] if cases else [],
@@ -528,4 +610,4 @@ def check(ctx):
                    assumptions=["patterns and node paths have depth+1 components (other lengths are not modelled)",
                                 "operator templates of one name have equal defaults (otherwise D26: the compiler's cache by operator name decides)",
                                 "no compile on the same template object before the history (otherwise the C14 state-carry finding applies to initial values)",
-                                "1-d array values whose length equals the number of addressed nodes; apply(edge_values) is not modelled"])
+                                "arrays of length 0 or 1 that do not fit the number of addressed nodes are not modelled; update_template(circuits=..) is not modelled"])
